@@ -17,6 +17,7 @@ package h2
 import (
 	"bytes"
 	"fmt"
+	"sync/atomic"
 
 	"golang.org/x/net/http2"
 	"golang.org/x/net/http2/hpack"
@@ -62,6 +63,10 @@ type queuedDataFrame struct {
 	streamID  uint32
 	endStream bool
 	data      []byte
+	relay     *relay // supplies the peer's max frame size when the frame is released
+
+	// maxFrameSize is set by prepare.
+	maxFrameSize uint32
 }
 
 func (f *queuedDataFrame) StreamID() uint32 {
@@ -72,8 +77,23 @@ func (f *queuedDataFrame) flowControlSize() int {
 	return len(f.data)
 }
 
+// prepare records the peer's max frame size at the time the frame is released. It is called with
+// relay.flowMu held when the frame enters the output channel.
+func (f *queuedDataFrame) prepare() {
+	f.maxFrameSize = atomic.LoadUint32(&f.relay.maxFrameSize)
+}
+
 func (f *queuedDataFrame) send(dest *http2.Framer) error {
-	return dest.WriteData(f.streamID, f.endStream, f.data)
+	// The peer may have lowered its max frame size while the frame was waiting for flow control, so the
+	// payload is split again if needed. The flow-control cost of the frame is unchanged.
+	data := f.data
+	for f.maxFrameSize > 0 && uint32(len(data)) > f.maxFrameSize {
+		if err := dest.WriteData(f.streamID, false, data[:f.maxFrameSize]); err != nil {
+			return err
+		}
+		data = data[f.maxFrameSize:]
+	}
+	return dest.WriteData(f.streamID, f.endStream, data)
 }
 
 func (f *queuedDataFrame) String() string {
